@@ -389,6 +389,11 @@ def evaluate(ctx, console, table, avail, widths, lines, padded, spec, text_cells
               and any((not c.flexible) and table._measure_column(console, c, max_width).maximum == 0 for c in table.columns)):
             # a ratio column next to a column that measures 0 (empty cells, no padding): reserved 0, given 1
             finding = "table-expand-ratio-zero-width-column"
+        elif not ok and sum(widths) < max_width and not fits_naturally and all(
+                (table._measure_column(console, c, w).maximum or 1) == w for c, w in zip(table.columns, widths)):
+            # the widths are what a re-measure returns (a fixed point of `_measure_column(..., width).maximum or 1`), the natural
+            # widths did not fit (so the collapse block ran) and the total is short: `table_width` was not refreshed
+            finding = "table-expand-stale-width"
         ctx.check(ok, "table_expand_exact", spec,
                   f"expanding table is {table_width} cells wide, asked for {max_width + extra} (widths {widths}, natural {first})", finding=finding)
     # --- width_fits
